@@ -235,6 +235,7 @@ func main() {
 	for i := 0; i < ctx.N(8000, 80000); i++ {
 		codecIn = append(codecIn, randBytes(r, 9))
 	}
+	codecIn = append(codecIn, longByteStrings(r)...)
 	var b64outs, uriouts []string
 	for _, s := range codecIn {
 		v, err := q("@base64").first(s)
@@ -566,4 +567,30 @@ func runPairs(ctx *common.Ctx) {
 	}
 	ctx.RunStream(st, lines, impl)
 	st.Exhaustive = false
+}
+
+// longByteStrings: lengths around every power of two up to 64 KiB (buffer sizes an encoder could
+// use), each in the three residues mod 3, random bytes of every class.
+func longByteStrings(r *common.Rand) []string {
+	const specials = " %+/=?&~\x00\n"
+	var out []string
+	for _, n := range []int{64, 128, 256, 512, 1024, 2048, 3072, 4096, 8192, 16384, 65536} {
+		for d := -2; d <= 3; d++ {
+			b := make([]byte, n+d)
+			for i := range b {
+				switch r.Intn(4) {
+				case 0:
+					b[i] = byte('a' + r.Intn(26))
+				case 1:
+					b[i] = byte(r.Intn(256))
+				case 2:
+					b[i] = specials[r.Intn(len(specials))]
+				default:
+					b[i] = byte(0x80 + r.Intn(0x80))
+				}
+			}
+			out = append(out, string(b))
+		}
+	}
+	return out
 }
